@@ -270,7 +270,8 @@ theorem not_residual_examples :
     ¬ Allowed (.noneType "group") ∧ ¬ Allowed (.noneType "closeTag") ∧ ¬ Allowed (.indexError "params[0]") ∧
     ¬ Allowed (.indexError "opt[0]") ∧ ¬ Allowed (.indexError "match[1][0]") ∧ ¬ Allowed (.reError "x") ∧
     ¬ Allowed (.noneType "readTo match[1]") ∧ ¬ Allowed (.indexError "match[0][0] line") ∧
-    ¬ Allowed (.indexError "match[0][0] list") ∧ ¬ Allowed (.indexError "match[0][0] block") := by
+    ¬ Allowed (.indexError "match[0][0] list") ∧ ¬ Allowed (.indexError "match[0][0] block") ∧
+    ¬ Allowed (.assertion "not self.eof()") ∧ ¬ Allowed (.indexError "reader.lines[pos:pos]") := by
   decide
 
 /-- the outcomes that are allowed and are not Python exceptions -/
